@@ -447,6 +447,13 @@ enum Op {
     Hand { fab: u8, peer: u64, script: Vec<Item> },
     ClearCache(char),
     RemoveFabric(char, u8),
+    /// replace the fabric at an index by a new one (re-issued credentials): remove + add
+    UpdateNoc(char, u8, FabSpec),
+    /// remember / put back the resumption cache of a node (a peer that kept an old record)
+    SaveCache(char),
+    RestoreCache(char),
+    /// an operation this version does not know: answered with '?'
+    Unknown,
 }
 
 struct Case {
@@ -509,7 +516,10 @@ fn parse_case(line: &str) -> Option<Case> {
             }
             "cc" => ops.push(Op::ClearCache(p[1].chars().next().unwrap())),
             "rf" => ops.push(Op::RemoveFabric(p[1].chars().next().unwrap(), p[2].parse().unwrap())),
-            other => panic!("bad op {}", other),
+            "un" => ops.push(Op::UpdateNoc(p[1].chars().next().unwrap(), p[2].parse().unwrap(), FabSpec::parse(p[3]))),
+            "cs" => ops.push(Op::SaveCache(p[1].chars().next().unwrap())),
+            "cr" => ops.push(Op::RestoreCache(p[1].chars().next().unwrap())),
+            _ => ops.push(Op::Unknown),
         }
     }
     Some(Case {
@@ -1132,8 +1142,49 @@ fn run_scenario(case: &Case, with_scripts: bool) -> String {
     let mut known_a: Vec<u32> = Vec::new();
     let mut known_b: Vec<u32> = Vec::new();
     let mut out: Vec<String> = Vec::new();
+    let mut saved_a: Vec<rs_matter::sc::case::ResumableSession> = Vec::new();
+    let mut saved_b: Vec<rs_matter::sc::case::ResumableSession> = Vec::new();
     for op in &case.ops {
         match op {
+            Op::Unknown => out.push("?".into()),
+            Op::SaveCache(n) => {
+                let m = if *n == 'A' { &matter_a } else { &matter_b };
+                let v: Vec<_> = m.with_state(|st| st.resumption.iter().cloned().collect());
+                if *n == 'A' {
+                    saved_a = v
+                } else {
+                    saved_b = v
+                }
+                out.push("cs".into());
+            }
+            Op::RestoreCache(n) => {
+                let m = if *n == 'A' { &matter_a } else { &matter_b };
+                let v = if *n == 'A' { saved_a.clone() } else { saved_b.clone() };
+                m.with_state(|st| {
+                    st.resumption.reset();
+                    for x in v {
+                        st.resumption.insert_or_update(x);
+                    }
+                });
+                out.push("cr".into());
+            }
+            Op::UpdateNoc(n, idx, fs) => {
+                let m = if *n == 'A' { &matter_a } else { &matter_b };
+                let root = build(&crypto, &keys, &case.certs[fs.root]);
+                let noc = build(&crypto, &keys, &case.certs[fs.noc]);
+                let icac = fs.icac.map(|i| build(&crypto, &keys, &case.certs[i])).unwrap_or_default();
+                let ek = epoch_key(fs.ipk);
+                let r = m.with_state(|st| {
+                    st.fabrics.remove(NonZeroU8::new(*idx).unwrap())?;
+                    st.fabrics
+                        .add(&crypto, CanonPkcSecretKeyRef::new(&keys.sk[fs.sk % NKEYS]), &root, &noc, &icac, Some(CanonAeadKeyRef::new(&ek)), 0xFFF1, 112233)
+                        .map(|f| f.fab_idx().get())
+                });
+                out.push(match r {
+                    Ok(i) => format!("un{}", i),
+                    Err(_) => "un-fail".into(),
+                });
+            }
             Op::ClearCache(n) => {
                 let m = if *n == 'A' { &matter_a } else { &matter_b };
                 m.with_state(|st| st.resumption.reset());
@@ -1690,6 +1741,21 @@ fn generate(tier: &str, seed: u64) -> (Vec<String>, BTreeMap<String, u64>) {
         g.push("chain", &w, "noc_not_yet_valid_last_known_clock", &[h(1, NODE_B, "")]);
     }
 
+    for on_a in [true, false] {
+        // expired is expired also for a node that only has its last-known-good time (seeded change C01-mut5, C19's subject)
+        let mut w = base_world(3, &[], &[]);
+        w.reliable = false;
+        w.us = rs_matter::utils::epoch::FIRMWARE_BUILD_MATTER_US;
+        let na = (w.us / 1_000_000 - 100_000) as u32;
+        with_chain(&mut w, on_a, |n, _, _| n.na = na);
+        g.push("chain", &w, &format!("noc_expired_last_known_clock_{}", if on_a { "A" } else { "B" }), &[h(1, NODE_B, "")]);
+        let mut w = base_world(3, &[], &[]);
+        w.reliable = false;
+        w.us = rs_matter::utils::epoch::FIRMWARE_BUILD_MATTER_US;
+        with_chain(&mut w, on_a, |_, i, _| if let Some(i) = i { i.na = na });
+        g.push("chain", &w, &format!("icac_expired_last_known_clock_{}", if on_a { "A" } else { "B" }), &[h(1, NODE_B, "")]);
+    }
+
     // ---- stream "mitm": full handshake, every message, every field
     // messages of a full handshake: 0.0 Sigma1 {1,2,3,4}  1.0 Sigma2 {1,2,3,4,5}  0.1 Sigma3 {1}  1.1 status {0,1}
     let worlds: Vec<(u8, World)> = if thorough { (0..4).map(|i| (i, base_world(i, &[0x0001_0001], &[]))).collect() } else { vec![(1, base_world(1, &[0x0001_0001], &[]))] };
@@ -1772,6 +1838,27 @@ fn generate(tier: &str, seed: u64) -> (Vec<String>, BTreeMap<String, u64>) {
             ("sigma2resume_unrequested", vec![h(1, NODE_B, ""), h(1, NODE_B, ""), "cc:A".into(), "cc:B".into(), h(1, NODE_B, "1.0.rp:1:1:0")]),
         ] {
             g.push("resume", &w, label, &ops);
+        }
+        // RE-ISSUED CREDENTIALS (added after the external seeded change C01-mut6): the same peer completes a second FULL
+        // handshake with a NOC that differs in its CATs; afterwards somebody still offers the resumption id of the FIRST
+        // handshake.  The first record must be gone: the session carries the CATs of the latest validated certificate.
+        for (label, c1, c2) in [("cat_replaced", vec![0x0001_0001u64], vec![0x0002_0002u64]), ("cat_dropped", vec![0x00AD_0001], vec![]), ("cat_added", vec![], vec![0x0003_0003])] {
+            // the initiator's NOC is re-issued; the initiator kept (cs/cr) its record of the first handshake
+            let mut wa = base_world(0, &c1, &[]);
+            let root = wa.certs[wa.a[0].root].clone();
+            let n2 = wa.cert(noc_cert(5, NODE_A, 9, &c2, &root));
+            let fs = FabSpec { root: wa.a[0].root, noc: n2, icac: None, sk: 5, ipk: 1 };
+            g.push("resume", &wa, &format!("initiator_noc_reissued_{}_old_id_offered", label),
+                   &[h(1, NODE_B, ""), "cs:A".into(), "cc:A".into(), format!("un:A:1:{}", fs.token()), h(1, NODE_B, ""), "cr:A".into(), h(1, NODE_B, "")]);
+            g.push("resume", &wa, &format!("initiator_noc_reissued_{}_then_resumed", label),
+                   &[h(1, NODE_B, ""), "cc:A".into(), format!("un:A:1:{}", fs.token()), h(1, NODE_B, ""), h(1, NODE_B, "")]);
+            // the responder's NOC is re-issued; the responder kept its record of the first handshake
+            let mut wb = base_world(0, &[], &c1);
+            let root = wb.certs[wb.b[0].root].clone();
+            let n2 = wb.cert(noc_cert(6, NODE_B, 9, &c2, &root));
+            let fs = FabSpec { root: wb.b[0].root, noc: n2, icac: None, sk: 6, ipk: 1 };
+            g.push("resume", &wb, &format!("responder_noc_reissued_{}_old_id_offered", label),
+                   &[h(1, NODE_B, ""), "cs:B".into(), "cc:B".into(), format!("un:B:1:{}", fs.token()), h(1, NODE_B, ""), "cr:B".into(), h(1, NODE_B, "")]);
         }
         // resumption between nodes with two fabrics: the record names the fabric
         let mut w2 = base_world(0, &[], &[]);
